@@ -578,6 +578,54 @@ func wholeCase(w *wire.Writer, r *pbfrun.Runner, f *file, class string) (*wire.C
 
 func buildCopy(base *file) *file { return build(base.seed, base.opts) }
 
+// encodeHook writes the file like pbfgen.Encode, but lets hook rewrite the BlobHeader and Blob
+// message trees of every block (idx -1 = header block) before they are serialized.
+func encodeHook(d *pbfgen.FileDesc, hook func(idx int, h, b []pbfgen.Field) ([]pbfgen.Field, []pbfgen.Field)) ([]byte, []pbfgen.Frame) {
+	var out []byte
+	var frames []pbfgen.Frame
+	emit := func(idx int, typ string, payload []byte, o *pbfgen.BlobOpts) {
+		h, b := pbfgen.BlobTrees(typ, payload, o)
+		h, b = hook(idx, h, b)
+		hb, bb := pbfgen.Serialize(h), pbfgen.Serialize(b)
+		frames = append(frames, pbfgen.Frame{Block: idx, Kind: "size", Off: len(out), Len: 4})
+		out = append(out, byte(len(hb)>>24), byte(len(hb)>>16), byte(len(hb)>>8), byte(len(hb)))
+		frames = append(frames, pbfgen.Frame{Block: idx, Kind: "header", Off: len(out), Len: len(hb)})
+		out = append(out, hb...)
+		frames = append(frames, pbfgen.Frame{Block: idx, Kind: "blob", Off: len(out), Len: len(bb)})
+		out = append(out, bb...)
+	}
+	if d.Header != nil {
+		emit(-1, "OSMHeader", pbfgen.Serialize(pbfgen.HeaderTree(d.Header)), &d.Header.BlobOpts)
+	}
+	for i, b := range d.Blocks {
+		emit(i, "OSMData", pbfgen.Serialize(pbfgen.BlockTree(b)), &b.BlobOpts)
+	}
+	return out, frames
+}
+
+// trailingGarbage: block pos is zlib compressed and its zlib_data carries extra bytes after the end
+// of the zlib stream (raw_size is correct, the data are intact); datasize is adjusted.
+func trailingGarbage(f *file, pos int, garbage []byte) {
+	opts(f, pos).Zlib = true
+	f.data, f.frames = encodeHook(f.desc, func(idx int, h, b []pbfgen.Field) ([]pbfgen.Field, []pbfgen.Field) {
+		if idx != pos {
+			return h, b
+		}
+		for i := range b {
+			if b[i].Num == 3 && b[i].Kind == pbfgen.KBytes {
+				b[i].Bytes = append(append([]byte{}, b[i].Bytes...), garbage...)
+			}
+		}
+		ds := len(pbfgen.Serialize(b))
+		for i := range h {
+			if h[i].Num == 3 && h[i].Kind == pbfgen.KVarint {
+				h[i].Var = uint64(ds)
+			}
+		}
+		return h, b
+	})
+}
+
 // bigBlobFile: header, one ordinary block, and a last OSMData block whose Blob message is exactly
 // blobLen bytes (a raw blob; the PrimitiveBlock is padded with an unknown bytes field, which
 // readers skip).  The frames and the description are extended by hand.
@@ -743,7 +791,7 @@ func main() {
 			name    string
 			corrupt int
 			tag     int64
-		}{{"zlib_checksum", 1, 2}, {"zlib_middle", 2, 2}, {"zlib_header", 4, 2}, {"zlib_trailer", 3, 4}}
+		}{{"zlib_checksum", 1, 2}, {"zlib_middle", 2, 2}, {"zlib_header", 4, 2}, {"zlib_trailer", 3, 4}, {"zlib_trailing_garbage", 100, 4}}
 		nz := 2
 		if a.Tier == "thorough" {
 			nz = 6
@@ -771,10 +819,14 @@ func main() {
 					}
 					for _, pos := range poss {
 						f := buildCopy(base)
-						o := opts(f, pos)
-						o.Zlib = true
-						o.Damage = &pbfgen.Damage{CorruptZlib: cl.corrupt}
-						f.encode()
+						if cl.corrupt == 100 {
+							trailingGarbage(f, pos, [][]byte{{0}, {0xde, 0xad, 0xbe, 0xef, 1, 2, 3}}[(i+pos+2)%2])
+						} else {
+							o := opts(f, pos)
+							o.Zlib = true
+							o.Damage = &pbfgen.Damage{CorruptZlib: cl.corrupt}
+							f.encode()
+						}
 						c, err := observeDamage(w, rr, f, cl.name+":"+build, pos, false, cl.tag)
 						if err != nil {
 							fail(err)
